@@ -43,6 +43,13 @@ def main():
         ok, out = C.run_translator()
         if not ok:
             broken.append(("translator", out[-3000:]))
+        try:
+            not_located = json.load(open(os.path.join(C.COQ, "Gen", "NOTES.json"))).get("not_located", [])
+        except (OSError, ValueError):
+            not_located = []
+        if not_located:
+            rep.log("translator: constants not located in the current source (pinned value used; their tie is the "
+                    "boundary correspondence only): " + ", ".join(not_located))
         props_files = list(getattr(P, "PROPS", [prop_id]))
         names = []
         for pf in props_files:
@@ -167,6 +174,7 @@ def main():
         "model_vs_impl_disagreements": len(disagreements),
         "counterexamples": len(counter),
         "case_seconds": round(time.time() - t_cases, 2),
+        "constants_not_located_by_translator": not_located,
     }
     for k, v in stats.items():
         cov.setdefault(k, v)
